@@ -182,16 +182,31 @@ def curve_probes(F, label, rnd):
         for op in ('mul_assign', 'affine_mul', 'precomp_256'):
             kv = dict(op=op, k=hex(k)); kv.update(pt_args(F, 'p', jac(F, P, lam if op == 'mul_assign' else None)))
             cases.append((op, kv, ec_mul(F, k, P)))
+    # wNAF contexts (C02): both staging orders, with and without a reuse history on the same context; table sizes from n
+    Rs = rand_point(F, rnd)
+    hs = ['', hex(3), hex(R - 1), hex((1 << 61) - 1) + ',' + hex(5), hex(0), hex((1 << 200) + 12345)]
+    for k in [0, 1, 2, 3, 5, 7, 8, 15, 16, 17, (1 << 33) - 1, 1 << 34, (1 << 64) - 1, 1 << 64, (1 << 130) + 1, R - 1, R, (1 << 255) - 1, 0xfedcba9876543210fedcba9876543210f, ((1 << 64) - 1) << 100 | 1]:
+        for op in ('wnaf_sb', 'wnaf_bs', 'wnaf_staged'):
+            for h in (hs if k in (0, 1, 5, R - 1, (1 << 130) + 1) else hs[:2]):
+                for n in ((1, 5, 100000) if (op != 'wnaf_sb' and h == '' and k in (3, R - 1, (1 << 255) - 1)) else (1,)):
+                    kv = dict(op=op, k=hex(k), k0=h, n=str(n)); kv.update(pt_args(F, 'p', jac(F, Rs, lam)))
+                    cases.append((op, kv, ec_mul(F, k, Rs)))
+    for k in ks:
+        kv = dict(op='precomp_3', k=hex(k)); kv.update(pt_args(F, 'p', jac(F, P, None)))
+        cases.append(('precomp_3', kv, ec_mul(F, k, P)))
     return cases
+
+
+SCALAR_OPS = ('mul_assign', 'affine_mul', 'precomp_256', 'precomp_3', 'wnaf_sb', 'wnaf_bs', 'wnaf_staged')
 
 
 def refute_curve(binp, props_wanted):
     rnd = random.Random(7)
     for F, label in ((F1, 'G1_op'), (F2, 'G2_op')):
         for op, kv, exp in curve_probes(F, label, rnd):
-            if op in ('mul_assign', 'affine_mul', 'precomp_256') and 'C02' not in props_wanted and 'C10' not in props_wanted:
+            if op in SCALAR_OPS and 'C02' not in props_wanted and 'C10' not in props_wanted:
                 continue
-            if op not in ('mul_assign', 'affine_mul', 'precomp_256') and not ({'C01', 'C14', 'C07'} & props_wanted):
+            if op not in SCALAR_OPS and not ({'C01', 'C14', 'C07'} & props_wanted):
                 continue
             out, cmd = run_bin(binp, label, kv)
             if 'error' in out:
